@@ -56,7 +56,9 @@ def parseTls (s : String) : Option (Bool × List Chain × Bool) :=
 def parseKind : String → Option TokKind
   | "auth" => some .auth | "cli" => some .cli | "storage" => some .storage | _ => none
 
-/-- `none` | kind:sig:iss:aud:nbf:exp:level:sub (now = 1000) -/
+/-- `none` | kind:sig:iss:aud:nbf:exp:level:sub (now = 1000; exp `soon` = 1050: over when presented again at `laterNow`) -/
+def laterNow : Int := 1100
+
 def parseCookie (s : String) : Option (Option Token) :=
   if s == "none" then some Option.none
   else match s.splitOn ":" with
@@ -65,7 +67,7 @@ def parseCookie (s : String) : Option (Option Token) :=
       | some k, some l =>
         some (some { sigOK := sig == "ok", issOK := iss == "ok", audOK := aud == "ok", kind := k,
                      nbf := if nbf == "past" then 900 else 1100,
-                     exp := if exp == "past" then 950 else 2000,
+                     exp := if exp == "past" then 950 else if exp == "soon" then 1050 else 2000,
                      iat := 900, sub := sub, level := l })
       | _, _ => Option.none
     | _ => Option.none
